@@ -268,20 +268,27 @@ const TABLES: [&str; 3] = [
 "#,
 ];
 
-const MODEL_CALLS: [(&str, &str, &str); 12] = [
-  ("gen", "c4", "{x: 7, s: \"ab12_34\"}"),
-  ("gen", "c4", "{x: 31, s: \"zz9_1\"}"),
-  ("gen", "svc", "{x: 5, s: \"q1_2\"}"),
-  ("gen", "tbl", "{x: 12, s: \"ab\"}"),
-  ("gen", "c3", "{x: 3, s: \"m5_6\"}"),
-  ("gen", "tmp", "{x: 40}"),
-  ("gen", "label", "{n: 4, t: \"w\"}"),
-  ("compatibility/level_2/2_0001.dmn", "Greeting Message", "{Full Name: \"John Doe\"}"),
-  ("compatibility/level_2/2_0009.dmn", "MonthlyPayment", "{Loan: {amount: 600000, rate: 0.0375, term: 360}, fee: 100}"),
-  ("compatibility/level_3/3_0008.dmn", "listGen2", "{a: \"x\", b: \"y\", c: \"z\"}"),
+/// (model, invocable, input context template; `$X` is replaced by the input variant of the operation)
+const MODEL_CALLS: [(&str, &str, &str); 16] = [
+  ("gen", "c4", "{x: $X, s: \"ab$X_34\"}"),
+  ("gen", "svc", "{x: $X, s: \"q$X_2\"}"),
+  ("gen", "tbl", "{x: $X, s: \"ab\"}"),
+  ("gen", "c3", "{x: $X, s: \"m$X_6\"}"),
+  ("gen", "tmp", "{x: $X}"),
+  ("gen", "label", "{n: $X, t: \"w$X\"}"),
+  ("gen", "rel", "{x: $X, s: \"r$X\"}"),
+  ("gen", "lst", "{x: $X, s: \"l$X\"}"),
+  ("gen", "inv", "{x: $X, s: \"i$X\"}"),
+  ("gen", "fnd", "{x: $X, s: \"f$X\"}"),
+  ("compatibility/level_2/2_0001.dmn", "Greeting Message", "{Full Name: \"John Doe $X\"}"),
+  ("compatibility/level_2/2_0009.dmn", "MonthlyPayment", "{Loan: {amount: 600000, rate: 0.0375, term: 360}, fee: $X}"),
+  ("compatibility/level_3/3_0008.dmn", "listGen2", "{a: \"x$X\", b: \"y\", c: \"z\"}"),
   ("compatibility/level_2/2_0105.dmn", "Decision7", "{}"),
+  ("compatibility/level_3/3_0016.dmn", "priceTable2", "{}"),
   ("compatibility/level_3/3_0004.dmn", "Routing", "__lending__"),
 ];
+
+const INPUT_VARIANTS: [u64; 5] = [3, 7, 12, 31, 40];
 
 fn lending_ctx() -> String {
   // the applicant data of the lending example, read from the workload extracted from the compliance tests
@@ -410,11 +417,16 @@ impl C13 {
       }));
       tables.push(built.ok().flatten().map(Arc::new));
     }
-    // models
+    // models: one long-lived evaluator per model; inputs per (call, input variant)
     let mut models: BTreeMap<String, Arc<ModelEvaluator>> = BTreeMap::new();
-    let mut model_inputs: Vec<Option<(String, String, FeelContext)>> = vec![];
-    for m in parr(plan, "models") {
-      let (model, inv, ctx) = MODEL_CALLS[(m.as_u64().unwrap_or(0) as usize) % MODEL_CALLS.len()];
+    let model_calls: Vec<(String, String, String)> = parr(plan, "models")
+      .iter()
+      .map(|m| {
+        let (model, inv, ctx) = MODEL_CALLS[(m.as_u64().unwrap_or(0) as usize) % MODEL_CALLS.len()];
+        (model.to_string(), inv.to_string(), if ctx == "__lending__" { lending_ctx() } else { ctx.to_string() })
+      })
+      .collect();
+    for (model, _, _) in &model_calls {
       if !models.contains_key(model) {
         let built = catch_unwind(AssertUnwindSafe(|| {
           let text = model_text(model)?;
@@ -422,12 +434,43 @@ impl C13 {
           ModelEvaluator::new(&defs).ok()
         }));
         if let Ok(Some(me)) = built {
-          models.insert(model.to_string(), me);
+          models.insert(model.clone(), me);
         }
       }
-      let ctx_text = if ctx == "__lending__" { lending_ctx() } else { ctx.to_string() };
-      let input = catch_unwind(|| dmntk_feel_evaluator::evaluate_context(&Scope::default(), &ctx_text)).ok().and_then(|r| r.ok());
-      model_inputs.push(input.filter(|_| models.contains_key(model)).map(|i| (model.to_string(), inv.to_string(), i)));
+    }
+    let model_input = |m: usize, x: u64| -> Option<FeelContext> {
+      let (_, _, ctx) = &model_calls[m];
+      let text = ctx.replace("$X", &INPUT_VARIANTS[(x as usize) % INPUT_VARIANTS.len()].to_string());
+      catch_unwind(|| dmntk_feel_evaluator::evaluate_context(&Scope::default(), &text)).ok().and_then(|r| r.ok())
+    };
+    // history-free baseline of every model call of the plan: a freshly built evaluator, one evaluation
+    let mut model_baseline: BTreeMap<(usize, u64), Option<String>> = BTreeMap::new();
+    for op in parr(plan, "ops") {
+      if pstr(op, "op") == "model" && !model_calls.is_empty() {
+        let m = (pu64(op, "m") as usize) % model_calls.len();
+        let x = pu64(op, "x") % INPUT_VARIANTS.len() as u64;
+        if model_baseline.contains_key(&(m, x)) || !models.contains_key(&model_calls[m].0) {
+          continue;
+        }
+        let (model, inv, _) = model_calls[m].clone();
+        let input = model_input(m, x);
+        let r = catch_unwind(AssertUnwindSafe(|| {
+          let text = model_text(&model)?;
+          let defs = dmntk_model::parse(&text).ok()?;
+          let fresh = ModelEvaluator::new(&defs).ok()?;
+          Some(value_text(&fresh.evaluate_invocable(&inv, input.as_ref()?)))
+        }));
+        match r {
+          Ok(v) => {
+            model_baseline.insert((m, x), v);
+          }
+          Err(_) => {
+            let _ = take_last_panic();
+            c.inc("crashes_observed.model_baseline");
+            model_baseline.insert((m, x), None);
+          }
+        }
+      }
     }
     // ---- history-free baseline: fresh parse, fresh prepare, fresh scope, initial clock
     let mut baseline: BTreeMap<(usize, usize), Option<String>> = BTreeMap::new();
@@ -684,40 +727,57 @@ impl C13 {
             }
           }
         }
-        "model" if !model_inputs.is_empty() => {
-          let m = (pu64(op, "m") as usize) % model_inputs.len();
+        "model" if !model_calls.is_empty() => {
+          let m = (pu64(op, "m") as usize) % model_calls.len();
+          let x = pu64(op, "x") % INPUT_VARIANTS.len() as u64;
           let ho = std::mem::take(&mut handover);
-          let (model, inv, input) = match &model_inputs[m] {
-            Some(x) => x.clone(),
+          let (model, inv, _) = model_calls[m].clone();
+          let me = match models.get(&model) {
+            Some(me) => Arc::clone(me),
             None => continue,
           };
-          let me = Arc::clone(&models[&model]);
+          let input = match model_input(m, x) {
+            Some(i) => i,
+            None => continue,
+          };
           let before = (input.to_string(), format!("{:?}", input));
           let r = on_thread(ho, || catch_unwind(AssertUnwindSafe(|| value_text(&me.evaluate_invocable(&inv, &input)))));
           let day = simrt::clock_days();
           match r {
             Ok(v) => {
               let after = (input.to_string(), format!("{:?}", input));
-              log(format!("model {}/{} -> {}", model, inv, v.chars().take(120).collect::<String>()), &mut h, &mut tail);
+              log(format!("model {}/{} input {} -> {}", model, inv, x, v.chars().take(120).collect::<String>()), &mut h, &mut tail);
               if before != after {
                 out.violation = Some(viol("evaluation-changed-input-context", &format!("{}/{}", model, inv), idx, format!("the input context is untouched: {}", before.0), after.0));
                 break;
               }
               c.inc("model.ok");
-              let list = seen.entry((2, m, 0)).or_default();
-              // the temporal decision of the simulator's model mentions a named zone but no time of day: clock-free
+              let list = seen.entry((2, m, x as usize)).or_default();
               if let Some((old, _)) = list.first() {
                 if *old != v {
-                  out.violation = Some(viol("value-not-repeatable", &format!("model:{}/{}", model, inv), idx, format!("{}/{} returns {}", model, inv, old), v.clone()));
+                  out.violation = Some(viol("value-not-repeatable", &format!("model:{}/{}", model, inv), idx, format!("{}/{} on {} returns what it returned earlier in this history: {}", model, inv, input, old), v.clone()));
                   break;
                 }
                 c.inc("model.repeated_and_compared");
               }
-              list.push((v, day));
+              list.push((v.clone(), day));
+              if let Some(Some(base)) = model_baseline.get(&(m, x)) {
+                if *base != v {
+                  out.violation = Some(viol(
+                    "value-differs-from-fresh-evaluator",
+                    &format!("model:{}/{}", model, inv),
+                    idx,
+                    format!("{}/{} on {} returns what a freshly built evaluator returned for the same call: {}", model, inv, input, base),
+                    v.clone(),
+                  ));
+                  break;
+                }
+                c.inc("model.compared_with_baseline");
+              }
             }
             Err(_) => {
               let record = take_last_panic();
-              if seen.get(&(2, m, 0)).map(|l| !l.is_empty()).unwrap_or(false) {
+              if seen.get(&(2, m, x as usize)).map(|l| !l.is_empty()).unwrap_or(false) || matches!(model_baseline.get(&(m, x)), Some(Some(_))) {
                 out.violation = Some(viol("panic-on-repeated-evaluation", &panic_site(&record), idx, format!("{}/{} returns a value as before", model, inv), record));
                 break;
               }
@@ -797,7 +857,7 @@ impl Sim for C13 {
     }
     let n_tables = rng.index(3);
     let tables: Vec<Value> = (0..n_tables).map(|_| json!(rng.index(TABLES.len()))).collect();
-    let n_models = rng.index(3);
+    let n_models = rng.index(4);
     let models: Vec<Value> = (0..n_models).map(|_| json!(rng.index(MODEL_CALLS.len()))).collect();
     let d0 = rng.pick(&CLOCK_DATES);
     let clock0 = simrt::days_from_civil(d0.0, d0.1, d0.2);
@@ -815,7 +875,7 @@ impl Sim for C13 {
       } else if roll < 75 && n_tables > 0 {
         json!({"op": "table", "t": rng.index(n_tables), "s": rng.index(n_scopes)})
       } else if roll < 85 && n_models > 0 {
-        json!({"op": "model", "m": rng.index(n_models)})
+        json!({"op": "model", "m": rng.index(n_models), "x": rng.index(INPUT_VARIANTS.len())})
       } else if roll < 92 {
         let d = rng.pick(&CLOCK_DATES);
         let days = if rng.chance(1, 3) { clock0 } else { simrt::days_from_civil(d.0, d.1, d.2) };
@@ -885,6 +945,7 @@ impl Sim for C13 {
       "parse.reparsed_on_other_scope",
       "table.repeated_and_compared",
       "model.repeated_and_compared",
+      "model.compared_with_baseline",
       "fault.clock_moved",
       "fault.clock_ticks_on_every_read",
       "fault.handover_to_other_thread",
